@@ -559,7 +559,9 @@ class ServeMpsMedia(MediaRequestBase):
         mod_seg, seg_start_tc, origin_time = representation.get_segment_index(
             start_time)
 
-        origin_time = -seg_start_tc
+        # seg_start_tc includes the loops of the source media that precede the
+        # segment (origin_time), the stored decode time does not
+        origin_time -= seg_start_tc
         if seg_time is not None:
             origin_time += seg_time
 
